@@ -7,6 +7,8 @@ import (
 	"fmt"
 	mbig "math/big"
 	"os"
+	"os/exec"
+	"path/filepath"
 	"runtime/debug"
 	"strings"
 	"testing"
@@ -415,3 +417,60 @@ func oracle(kind string, raw json.RawMessage) error {
 
 func TestReplay(t *testing.T)   { pbt.RunReplay(t, oracle) }
 func TestARegress(t *testing.T) { pbt.RunRegress(t, "C09", oracle) }
+
+// The command line itself: the limits must reach the interpreter in every input mode (-c, one file, several files).
+func TestCommandLineLimits(t *testing.T) {
+	if !pbt.Mine(0) {
+		return
+	}
+	dir, err := os.MkdirTemp("", "verif-c09-cli-")
+	if err != nil {
+		t.Fatalf("harness: %v", err)
+	}
+	defer os.RemoveAll(dir)
+	bin := filepath.Join(dir, "grol")
+	build := exec.Command("go", "build", "-o", bin, "grol.io/grol")
+	if out, err := build.CombinedOutput(); err != nil {
+		t.Skipf("cannot build the grol command here: %v %s", err, out)
+	}
+	rec := "func foo(n) {if n<=1 {1} else {self(n-1);n}}; "
+	_ = os.WriteFile(filepath.Join(dir, "ok.gr"), []byte(rec+"println(foo(12))\n"), 0o644)
+	_ = os.WriteFile(filepath.Join(dir, "deep.gr"), []byte(rec+"println(foo(13))\n"), 0o644)
+	_ = os.WriteFile(filepath.Join(dir, "spin.gr"), []byte("for true { }\n"), 0o644)
+	type run struct {
+		args     []string
+		wantFail bool
+		wantText string
+	}
+	runs := []run{
+		{[]string{"-no-auto", "-quiet", "-max-depth", "12", "-c", rec + "println(foo(12))"}, false, "12"},
+		{[]string{"-no-auto", "-quiet", "-max-depth", "12", "-c", rec + "println(foo(13))"}, true, "max depth"},
+		{[]string{"-no-auto", "-quiet", "-max-depth", "12", "ok.gr"}, false, "12"},
+		{[]string{"-no-auto", "-quiet", "-max-depth", "12", "deep.gr"}, true, "max depth"},
+		{[]string{"-no-auto", "-quiet", "-max-depth", "12", "ok.gr", "deep.gr"}, true, "max depth"},
+		{[]string{"-no-auto", "-quiet", "-max-depth", "12", "-shared-state", "ok.gr", "deep.gr"}, true, "max depth"},
+		{[]string{"-no-auto", "-quiet", "-max-duration", "100ms", "spin.gr"}, true, "deadline"},
+		{[]string{"-no-auto", "-quiet", "-max-duration", "100ms", "ok.gr", "spin.gr"}, true, "deadline"},
+		{[]string{"-no-auto", "-quiet", "-max-duration", "100ms", "-c", "for true { }"}, true, "deadline"},
+	}
+	for _, r := range runs {
+		cmd := exec.Command(bin, r.args...)
+		cmd.Dir = dir
+		done := make(chan struct{})
+		var out []byte
+		var cerr error
+		go func() { out, cerr = cmd.CombinedOutput(); close(done) }()
+		select {
+		case <-done:
+		case <-time.After(20 * time.Second):
+			_ = cmd.Process.Kill()
+			<-done
+			pbt.Fail(t, "cli", Case{Family: "cli", Program: strings.Join(r.args, " ")}, "grol %s did not return within 20 s", strings.Join(r.args, " "))
+		}
+		failed := cerr != nil
+		if failed != r.wantFail || !strings.Contains(string(out), r.wantText) {
+			pbt.Fail(t, "cli", Case{Family: "cli", Program: strings.Join(r.args, " ")}, "grol %s: failed=%v (expected %v), output should mention %q:\n%.600s", strings.Join(r.args, " "), failed, r.wantFail, r.wantText, out)
+		}
+		pbt.CaseExact(true, "command-line-limits")
+	}
+}
